@@ -586,7 +586,7 @@ func genC03CaseWith(t *rapid.T, opts gen.MsgOpts) c03Case {
 		case 0: // another key of the same algorithm
 			nk := gen.KeyMat(t, old.Alg)
 			if nk.Family() == "rsa" && nk.RSA == old.RSA {
-				nk.RSA = map[string]string{"rsa2048": "rsa2048b", "rsa2048b": "rsa3072", "rsa3072": "rsa4096", "rsa4096": "rsa2048"}[old.RSA]
+				nk.RSA = map[string]string{"rsa2048": "rsa2048b", "rsa2048b": "rsa3072", "rsa3072": "rsa4096", "rsa4096": "rsa2049", "rsa2049": "rsa2055", "rsa2055": "rsa2048"}[old.RSA]
 			}
 			c.VKeys[i] = nk
 			c.Muts = []gen.Mutation{{Op: "key/other-key-same-alg"}}
